@@ -957,7 +957,7 @@ def oracle_c05(case, ir):
         for i in range(k - 1):
             if not _c05_close(h3[i], hist[i]):
                 return {"what": f"truncating to {k} observations changed history[{i}]: {h3[i]!r} vs {hist[i]!r}", "cut": k}
-        if not (h3[k - 1] <= hist[k - 1] + 1e-12):
+        if not (math.isnan(h3[k - 1]) and math.isnan(hist[k - 1])) and not (h3[k - 1] <= hist[k - 1] + 1e-12):
             return {"what": f"truncating to {k} observations raised history[{k - 1}]: {h3[k - 1]!r} > {hist[k - 1]!r}", "cut": k}
         head = sum(x[:k])
         clamp_possible = test in ("alpha_mart", "betting_mart") and N is not None
